@@ -66,8 +66,21 @@ def isMetricFilter (m : SModel) (f : Expr) : Bool :=
     | some (t, n) => t == m.name && (m.measure? n).isSome
     | none => false
 
+/-- a segment is its defining predicate: `{model}.x` and bare `x` both mean field `x` of the model -/
+def segmentPredicate (m : SModel) (ref : String) : Option Expr :=
+  match splitFirstDot ref with
+  | some (mn, sn) =>
+    if mn == m.name then (m.segment? sn).map fun sg => sg.sql.mapCols fun c =>
+      if Str.startsWith c "{model}." then m.name ++ "." ++ Str.dropLen c 8
+      else if c.toList.contains '.' then c else m.name ++ "." ++ c
+    else none
+  | none => none
+
+def allFilters (m : SModel) (q : Query) : List Expr :=
+  q.filters ++ q.segments.filterMap (segmentPredicate m)
+
 def rowFilters (m : SModel) (q : Query) : List Expr :=
-  ((q.filters.flatMap Expr.conjuncts).filter fun f => !isMetricFilter m f).map (Expr.subst (resolve m))
+  (((allFilters m q).flatMap Expr.conjuncts).filter fun f => !isMetricFilter m f).map (Expr.subst (resolve m))
 
 /-- the primary key as one expression -/
 def pkExpr (m : SModel) : Expr := match m.pk with | [k] => .col k | ks => .keyConcat ks
@@ -109,15 +122,18 @@ def outName (q : Query) (ref : String) : String :=
 def measuresOf (m : SModel) (q : Query) : List (Measure × String) :=
   q.metrics.filterMap fun r => (split2 r).bind fun (_, x) => (m.measure? x).map fun ms => (ms, outName q r)
 
-/-- rows of a grouped query before metric-value filters / ORDER BY / LIMIT / OFFSET -/
-def grouped (m : SModel) (q : Query) (rows : List Row) : List Row :=
+/-- the groups of a query: (dimension values, rows of the group); they depend on the requested
+dimensions and the row-level filters only -/
+def groupsOf (m : SModel) (q : Query) (rows : List Row) : List (List Val × List Row) :=
   let dims := effectiveDims m q
   let kept := rows.filter (allTrue (rowFilters m q))
-  let groups : List (List Val × List Row) :=
-    if dims.isEmpty then [([], kept)]
-    else groupBy (fun r => dims.map fun ref => (dimRefExpr m ref).eval r) kept
-  groups.map fun (k, g) =>
-    (dims.map (outName q)).zip k ++ (measuresOf m q).map fun (ms, n) => (n, metricValue m ms g)
+  if dims.isEmpty then [([], kept)]
+  else groupBy (fun r => dims.map fun ref => (dimRefExpr m ref).eval r) kept
+
+/-- rows of a grouped query before metric-value filters / ORDER BY / LIMIT / OFFSET -/
+def grouped (m : SModel) (q : Query) (rows : List Row) : List Row :=
+  (groupsOf m q rows).map fun (k, g) =>
+    ((effectiveDims m q).map (outName q)).zip k ++ (measuresOf m q).map fun (ms, n) => (n, metricValue m ms g)
 
 /-- the same query as a flat query (used to state coverage) -/
 def flatAgg (m : SModel) (ms : Measure) (name : String) : FlatAgg :=
@@ -135,7 +151,7 @@ def flat (m : SModel) (q : Query) : FlatQuery :=
 
 /-- metric-value filters, ORDER BY, OFFSET, LIMIT on top of `grouped` -/
 def metricFilters (m : SModel) (q : Query) : List Expr :=
-  (q.filters.flatMap Expr.conjuncts).filter (isMetricFilter m)
+  ((allFilters m q).flatMap Expr.conjuncts).filter (isMetricFilter m)
 
 def finish (m : SModel) (q : Query) (rows : List Row) : List Row :=
   let kept := rows.filter fun out =>
